@@ -70,10 +70,10 @@ def run(ctx):
     oks = [bi for bi, blk in enumerate(cp.blocks) for s in blk['s'] if s.get('rv', {}).get('k') == 'agg' and s['rv'].get('variant') == 'Ok' and s.get('p', {}).get('l') == 0 and bi in cp.reachable_from(0)]
     ctx.anchor('R28.4', 'Ok return of compress_properties', len(oks) >= 1, cp.n)
     for bi in oks:
-      gs = guard_strings(cp, bi)
+      gs = guard_strings(cp, bi, forms=True)
       a = any(re.match(r'^(Le\(Vec::len\(cbor\),MAX_COMPRESSED_PROPERTIES_SIZE\)==True|Gt\(Vec::len\(cbor\),MAX_COMPRESSED_PROPERTIES_SIZE\)==False)$', g) for g in gs)
       ctx.ob('R28.4', cp.n, 'Ok requires len <= MAX_COMPRESSED_PROPERTIES_SIZE', a, f'{gs}', where(cp, cp.line))
-    ratio = [g for bi in range(len(cp.blocks)) if bi in cp.reachable_from(0) for g in guard_strings(cp, bi) if 'MAX_PROPERTIES_COMPRESSION_RATIO' in g]
+    ratio = [g for bi in range(len(cp.blocks)) if bi in cp.reachable_from(0) for g in guard_strings(cp, bi, forms=True) if 'MAX_PROPERTIES_COMPRESSION_RATIO' in g]
     ctx.ob('R28.4', cp.n, 'a compressed result is accepted only under len / compressed.len() <= MAX_PROPERTIES_COMPRESSION_RATIO', any(re.match(r'^(Le\(Div\(Vec::len\(cbor\),Vec::len\(.*\)\),MAX_PROPERTIES_COMPRESSION_RATIO\)==True|Gt\(Div\(Vec::len\(cbor\),Vec::len\(.*\)\),MAX_PROPERTIES_COMPRESSION_RATIO\)==False)$', g) for g in ratio) and any(g.startswith('Gt(Div(') and g.endswith('==True') or g.startswith('Le(Div(') and g.endswith('==False') for g in ratio), f'{sorted(set(ratio))}', where(cp, cp.line))
   cs = {k: (F.consts.get('ord::inscriptions::inscription::' + k) or {}).get('v') for k in ('MAX_COMPRESSED_PROPERTIES_SIZE', 'MAX_PROPERTIES_COMPRESSION_RATIO')}
   ctx.ob('R28.4', 'ord::inscriptions::inscription', 'documented limits: 4 000 000 bytes decompressed, ratio 30:1', cs == {'MAX_COMPRESSED_PROPERTIES_SIZE': 4_000_000, 'MAX_PROPERTIES_COMPRESSION_RATIO': 30}, f'{cs}', nontrivial=False)
